@@ -13,7 +13,9 @@ RULE = ("corpora of 1-6 strings over small alphabets (so that phrases repeat acr
         "corpus; max_dict_size in {2,3,4,5,8,65536} (small values hit the cap); max_columns in {None,2,3,16,1000,65536}; "
         "base_dictionary None / single characters (LZW style) / multi-character phrases / zero counts / the empty phrase "
         "(for hashed runs the base phrases are hashed with the run's own seeded hash function); integer random_state; "
-        "transform inputs = training strings + strings with unseen phrases + '' ; plus direct calls of the njit "
+        "transform inputs = training strings + strings with unseen phrases + '' , each transformed twice (the second "
+        "result and the fitted dictionary must not have moved); ~30% of the estimators had an earlier fit with another "
+        "corpus, hash width and cap before set_params + fit (must behave as a fresh estimator); plus direct calls of the njit "
         "murmurhash on random code-point arrays (>= 10^4 keys per run, lengths 0..13, code points up to 0x10FFFF). "
         "Non-trivial = a transform input with a phrase that has no fitted column, or the cap reached, or a hash "
         "collision between two phrases of the corpus, or a murmur batch.")
@@ -50,6 +52,12 @@ def corpus():
     cs.append(_fit([""], ["", "a"], 65536, None, None, 0))
     cs.append(_fit([], ["a"], 65536, None, None, 0))
     cs.append(_fit(["aaaa", "aaaa"], ["aaaaaaaaaaaa"], 4, 2, None, 1))
+    # the estimator had an earlier life with a wide hash / another cap / another corpus
+    big = ["".join("abcdefgh"[(i * i + 3 * j) % 8] for j in range(40)) for i in range(4)]
+    for mc in (None, 8, 16):
+        c = _fit(big, ["abzzab", "hgfedcba" * 3, ""], 65536, mc, None, 0)
+        c["prefit"] = {"X": ["xyzxyzxyz", "abab"], "max_columns": 4096, "max_dict_size": 3}
+        cs.append(c)
     cs.append({"kind": "murmur", "seed": 7, "keys": [[], [1], [1, 2], [1, 2, 3], [97, 98, 99, 100, 101], [0, 0, 0, 0],
                                                     [0x10FFFF] * 9, [255, 256, 65535, 65536]]})
     return cs
@@ -99,6 +107,9 @@ def generate(rng, tier):
         cs.append(_fit(X, Xt, rng.choice([2, 3, 4, 5, 8, 65536, 65536, 65536]),
                        rng.choice([None, None, 2, 3, 16, 16, 1000, 65536]), _rand_base(rng, alpha),
                        rng.randint(0, 10 ** 6)))
+        if rng.random() < 0.3:
+            cs[-1]["prefit"] = {"X": [_rand_string(rng, alpha + "q", maxlen) for _ in range(rng.randint(1, 4))],
+                                "max_columns": rng.choice([2, 16, 4096, 65536]), "max_dict_size": rng.choice([2, 4, 65536])}
     n_batches, per = (12, 1000) if tier == "quick" else (60, 2000)
     for _ in range(n_batches):
         hi = rng.choice([1, 255, 256, 0x10FFFF, 0x10FFFF])
@@ -178,8 +189,17 @@ def _run_one(case, mc, out):
             base_keys = [[k, c] for k, c in bd.items()]
     out["base_keys"] = base_keys
     try:
-        m = LZCompressionVectorizer(max_dict_size=case["max_dict_size"], max_columns=mc, base_dictionary=bd,
-                                    random_state=case["random_state"])
+        pre = case.get("prefit")
+        if pre:
+            # history: the same estimator was fitted before, on other data and with other settings
+            m = LZCompressionVectorizer(max_dict_size=pre["max_dict_size"], max_columns=None if mc is None else pre["max_columns"],
+                                        random_state=case["random_state"])
+            m.fit_transform(pre["X"])
+            m.transform(pre["X"] + ["zq", ""])
+            m.set_params(max_dict_size=case["max_dict_size"], max_columns=mc, base_dictionary=bd)
+        else:
+            m = LZCompressionVectorizer(max_dict_size=case["max_dict_size"], max_columns=mc, base_dictionary=bd,
+                                        random_state=case["random_state"])
         M = m.fit_transform(X)
     except Exception as e:
         out["fit_exc"] = f"{type(e).__name__}: {str(e)[:120]}"
@@ -223,12 +243,13 @@ def _run_one(case, mc, out):
         out["enc"] = encs
     except Exception as e:
         out["enc_exc"] = f"{type(e).__name__}: {str(e)[:120]}"
-    for name, Y in (("tr", X), ("trt", Xt)):
+    for name, Y in (("tr", X), ("trt", Xt), ("tr_again", X), ("trt_again", Xt)):
         try:
             T = m.transform(Y)
             out[name] = {"shape": [int(x) for x in T.shape], "rows": _rows(T, by_index)}
         except Exception as e:
             out[name + "_exc"] = f"{type(e).__name__}: {str(e)[:120]}"
+    out["cols_after"] = [[_label(k), int(v)] for k, v in sorted(m.column_label_dictionary_.items(), key=lambda kv: kv[1])]
 
 
 def run_impl(case):
@@ -399,7 +420,13 @@ def oracle(case, outs):
     results = {}
     for name, mc in _runs(case, o):
         r = o[name]
-        tag = f"[{name} max_columns={mc} cap={cap} base={base} rs={case['random_state']}]"
+        tag = f"[{name} max_columns={mc} cap={cap} base={base} rs={case['random_state']}{' after an earlier fit ' + str(case['prefit']) if case.get('prefit') else ''}]"
+        rr = o.get(name, {})
+        for a, b in (("tr", "tr_again"), ("trt", "trt_again")):
+            if a in rr and (b + "_exc" in rr or rr.get(b) != rr[a]):
+                fails.append(_F("lz.transform-not-repeatable", f"second transform of the same strings gives {rr.get(b, rr.get(b + '_exc'))}, first {rr[a]} {tag}"))
+        if "cols" in rr and "cols_after" in rr and rr["cols"] != rr["cols_after"]:
+            fails.append(_F("lz.transform-changes-model", f"column_label_dictionary_ has {len(rr['cols_after'])} entries after transform, {len(rr['cols'])} after fit {tag}"))
         if "fit_exc" in r:
             fails.append(_F(f"lz.fit-raises.{name}", f"fit_transform({X}) raises {r['fit_exc']} {tag}"))
             continue
